@@ -1,15 +1,41 @@
-(* Operational model of ONE TRANSACTION of a static Sodium program, built from the propagation engine
-   of Model/Engine.v (instantiated at the value type `val` of Spec/Sodium.v).
+(* Operational model of ONE TRANSACTION of a Sodium program whose wiring is fixed during the transaction,
+   built from the propagation engine of Model/Engine.v (instantiated at the value type `val` of
+   Spec/Sodium.v), and of the sequence of transactions an outermost close performs (the transaction of
+   the sends, then one transaction per deferred item).
 
-   The program is the `defs` table of a specification state `st`, restricted to the static
-   combinational fragment (no switch, defer, split, value).  `compile st` has one engine node per
-   key below `nsize st = 1 + max key` (keys that are not defined are inert nodes).  The node of a stream
-   definition fires the stream's occurrence; the node of a cell definition fires the cell's UPDATE
-   (its new value), exactly like the implementation, where every cell is a hold over an update stream
-   (/repo/src/impl_/cell.rs `Cell::_new`).  The dependencies of a node are the definitions it reads
-   instantaneously; cells that are only sampled (snapshot, gate, lift arguments that did not change)
-   are read through `cur`, the value before the transaction.  The rule `Frule st n` transliterates the
-   update closures of /repo/src/impl_/stream.rs and cell.rs. *)
+   The program is the `defs` table of a specification state `st`.  Every primitive is covered except
+   switch_c (whose implementation acquires a dependency dynamically INSIDE an update closure,
+   /repo/src/impl_/cell.rs `switch_c`: that is outside a model whose dependency lists are fixed while
+   the engine runs).
+
+   `compile st` has one engine node per key below `nsize st = 1 + max key` (keys that are not defined are
+   inert nodes) plus, at index `spark st k = nsize st + k`, the SPARK of key k: the source stream that
+   `Cell::value` creates, sends the current value to and queues on `changed_nodes`
+   (/repo/src/impl_/cell.rs lines 213-236).  The spark of k fires only when k is a `DValue` created in
+   the transaction that is closing (k in `fresh st`); all other spark nodes are inert.
+
+   The node of a stream definition fires the stream's occurrence; the node of a cell definition fires
+   the cell's UPDATE (its new value), exactly like the implementation, where every cell is a hold over
+   an update stream (`Cell::_new`).  The dependencies of a node are the definitions it reads
+   instantaneously; cells that are only sampled (snapshot, gate, lift arguments that did not change,
+   the outer cell of a switch_s) are read through `cur`, the value before the transaction.  The rule
+   `Frule st n` transliterates the update closures of /repo/src/impl_/stream.rs and cell.rs.
+
+   switch_s (/repo/src/impl_/cell.rs `switch_s`): the inner node depends on (a) the stream the outer
+   cell holds - re-wired only in `pre_post`, AFTER propagation, so during one transaction it is the stream
+   held when the transaction started, `cur st c = VRef m` - and (b) the outer node, which depends on the
+   outer cell's update stream.  The inner node's closure forwards the firing of the current inner stream
+   and ignores the outer one.  Hence `ndeps st s = [m; c]` and the rule is "first input".  The next
+   transaction's graph is compiled from the committed state, i.e. from the new value of the outer cell.
+   NOTE: acyclicity of `ndeps` (hypothesis `acyclic` of the theorems) therefore also demands that the
+   outer cell's update does not depend, within the same transaction, on the switch's own output.  That
+   excludes exactly the implementation's known defect with a cyclic outer cell (the specification's
+   `occ (DSwitchS c)` does not read `upd c`, the implementation's node does depend on it).
+
+   defer / split (/repo/src/impl_/stream.rs): the result is a fresh sink; a listener on the argument posts
+   one send per event (split: per list element), each run later in a transaction of its own.  So in a
+   transaction a DDefer / DSplit node is a SOURCE fired with what was injected for it, and the commit
+   collects the deferred items from the argument's firing (`net_deferred`). *)
 From Coq Require Import List ZArith Bool Arith.
 Import ListNotations.
 From Sodium Require Import Engine EngineScript Sodium.
@@ -18,7 +44,7 @@ Open Scope nat_scope.
 (* ------------------------------------------------------------------ the fragment *)
 Definition in_frag_def (d : def) : bool :=
   match d with
-  | DSwitchS _ | DSwitchC _ | DDefer _ | DSplit _ | DValue _ => false
+  | DSwitchC _ => false
   | _ => true
   end.
 Definition in_fragment (st : state) : bool := forallb (fun kd => in_frag_def (snd kd)) (defs st).
@@ -32,14 +58,14 @@ Definition is_stream_key (st : state) (k : nat) : bool :=
 Definition is_cell_key (st : state) (k : nat) : bool :=
   match alookup (defs st) k with Some d => is_cell d | None => false end.
 
-(* every key a definition refers to exists and has the right kind *)
+(* every key a definition refers to exists and has the right kind (depends on `defs` and `loops` only) *)
 Definition refs_ok_def (st : state) (k : nat) (d : def) : bool :=
   match d with
-  | DMap s _ | DFilter s _ | DOnce s | DRouter s _ | DHold s => is_stream_key st s
+  | DMap s _ | DFilter s _ | DOnce s | DRouter s _ | DHold s | DDefer s | DSplit s => is_stream_key st s
   | DMerge a b _ => is_stream_key st a && is_stream_key st b
   | DSnapshot s cs _ => is_stream_key st s && forallb (is_cell_key st) cs
   | DGate s c => is_stream_key st s && is_cell_key st c
-  | DUpdates c | DMapC c _ => is_cell_key st c
+  | DUpdates c | DMapC c _ | DValue c | DSwitchS c => is_cell_key st c
   | DLift cs _ => forallb (is_cell_key st) cs
   | DSLoop => match alookup (loops st) k with Some t => is_stream_key st t | None => true end
   | DCLoop => match alookup (loops st) k with Some t => is_cell_key st t | None => true end
@@ -52,15 +78,30 @@ Definition refs_ok (st : state) : bool := forallb (fun kd => refs_ok_def st (fst
 Definition cells_resolved (st : state) : bool :=
   forallb (fun kd => negb (is_cell (snd kd)) || is_some (alookup (cvals st) (fst kd))) (defs st).
 
-(* listeners listen to streams; no lazy is pending (all were resolved when their transaction closed) *)
+(* the outer cell of every switch_s currently holds a reference to an existing stream (depends on
+   `cvals`: it has to be re-established after every commit) *)
+Definition switch_target_ok_def (st : state) (d : def) : bool :=
+  match d with
+  | DSwitchS c => match cur st (F st) c with EV (VRef m) => is_stream_key st m | _ => false end
+  | _ => true
+  end.
+Definition switch_targets_ok (st : state) : bool :=
+  forallb (fun kd => switch_target_ok_def st (snd kd)) (defs st).
+
+(* listeners listen to streams; no lazy is pending (all were resolved when their transaction closed);
+   user post closures sample cells *)
 Definition listeners_ok (st : state) : bool := forallb (fun lh => is_stream_key st (snd lh)) (listeners st).
 Definition lazies_val (st : state) : bool :=
   forallb (fun zl : nat * (lz * nat) => match fst (snd zl) with LzVal _ => true | LzCell _ => false end) (lazies st).
+Definition posts_ok (st : state) (ps : list (nat * list nat)) : bool :=
+  forallb (fun p : nat * list nat => forallb (is_cell_key st) (snd p)) ps.
 
 (* ------------------------------------------------------------------ the graph *)
 Definition nsize (st : state) : nat := S (list_max (map fst (defs st))).
+Definition spark (st : state) (k : nat) : nat := nsize st + k.      (* node of the spark of key k *)
+Definition gsize (st : state) : nat := nsize st + nsize st.         (* number of nodes *)
 
-(* the definitions that definition d (at key n) reads instantaneously *)
+(* the nodes that definition d (at key n) reads instantaneously *)
 Definition ddeps (st : state) (n : nat) (d : def) : list nat :=
   match d with
   | DMap s _ | DFilter s _ | DSnapshot s _ _ | DGate s _ | DRouter s _ | DHold s => [s]
@@ -70,6 +111,11 @@ Definition ddeps (st : state) (n : nat) (d : def) : list nat :=
   | DLift cs _ => cs
   | DSLoop | DCLoop => match alookup (loops st) n with Some t => [t] | None => [] end
   | DRoute r _ => match alookup (defs st) r with Some (DRouter a _) => [a] | _ => [] end
+  (* value() = updates().or_else(spark.map(run)); the spark exists only in the creating transaction *)
+  | DValue c => if amem (fresh st) n then [c; spark st n] else [c]
+  (* the stream held at the start of the transaction, and the outer node *)
+  | DSwitchS c => match cur st (F st) c with EV (VRef m) => [m; c] | _ => [c] end
+  (* sinks, never, constants, and defer / split (sinks of their own deferred transactions): sources *)
   | _ => []
   end.
 Definition ndeps (st : state) (n : nat) : list nat :=
@@ -78,12 +124,12 @@ Definition ndeps (st : state) (n : nat) : list nat :=
 (* dependents: everybody who registered, here in increasing key order; the refinement theorem is
    proved for EVERY graph with these dependencies and complete dependents lists (any order) *)
 Definition ndependents (st : state) (d : nat) : list nat :=
-  filter (fun n => existsb (Nat.eqb d) (ndeps st n)) (seq 0 (nsize st)).
+  filter (fun n => existsb (Nat.eqb d) (ndeps st n)) (seq 0 (gsize st)).
 
 Definition compile (st : state) : graph val :=
   map (fun n => {| deps := ndeps st n; dependents := ndependents st n;
                    visited := false; done := false; changed := false; fire := None |})
-      (seq 0 (nsize st)).
+      (seq 0 (gsize st)).
 
 (* ------------------------------------------------------------------ the update closures *)
 (* sample of a cell during the transaction: its value before the transaction *)
@@ -108,6 +154,8 @@ Definition Frule (st : state) : rule val := fun n ins =>
     | DSnapshot _ cs f => match o with Some v => Some (appN f (v :: map (curv st) cs)) | None => None end
     | DGate _ c => match o with Some v => if truthy (curv st c) then Some v else None | None => None end
     | DOnce _ | DUpdates _ | DSLoop | DRouter _ _ | DHold _ | DCLoop => o     (* forwarders *)
+    | DSwitchS _ => o               (* inputs [current inner stream; outer]: forward the inner firing *)
+    | DValue _ => match o with Some u => Some u | None => nth 1 ins None end   (* updates or_else spark *)
     | DRoute r k =>
       match alookup (defs st) r, o with
       | Some (DRouter _ sl), Some v => if existsb (Z.eqb k) (app_sel sl v) then Some v else None
@@ -124,16 +172,26 @@ Definition Frule (st : state) : rule val := fun n ins =>
   end.
 
 (* ------------------------------------------------------------------ one transaction *)
-(* the sinks that were sent to, with their coalesced value *)
+(* what a source node is fired with: a sink that was sent to fires its coalesced value; a defer / split
+   node fires the item injected for it; the spark of a value() created in this transaction fires the
+   cell's current value *)
+Definition src_val (st : state) (inj : list (nat * val)) (n : nat) : option val :=
+  match alookup (defs st) n with
+  | Some (DSink co) => coalesce co (injected inj n)
+  | Some (DDefer _) | Some (DSplit _) => coalesce None (injected inj n)
+  | Some _ => None
+  | None =>
+    if Nat.leb (nsize st) n
+    then match alookup (defs st) (n - nsize st) with
+         | Some (DValue c) => if amem (fresh st) (n - nsize st) then Some (curv st c) else None
+         | _ => None
+         end
+    else None
+  end.
+
+(* the fired sources, here queued in increasing node order (the theorems hold for every queue order) *)
 Definition net_sources (st : state) (inj : list (nat * val)) : list (nat * val) :=
-  flat_map (fun kd : nat * def =>
-              match snd kd with
-              | DSink co => match coalesce co (injected inj (fst kd)) with
-                            | Some v => [(fst kd, v)]
-                            | None => []
-                            end
-              | _ => []
-              end) (defs st).
+  flat_map (fun n => match src_val st inj n with Some v => [(n, v)] | None => [] end) (seq 0 (gsize st)).
 
 (* fire the sources fs (in this queue order) on graph gr and drain; result: every node's final firing
    and the update log, oldest first *)
@@ -159,7 +217,8 @@ Definition net_calls (st : state) (fires : list (option val)) : list obs :=
               (rev (listeners st))).
 
 (* end of the transaction: cells take their fired update if any (else keep their value), once nodes
-   that fired are flagged *)
+   that fired are flagged, nothing is fresh any more.  The switch_s nodes need nothing: the next
+   transaction's dependencies are computed from the new `cvals` (what `pre_post` re-wires). *)
 Definition net_commit (st : state) (fires : list (option val)) : state :=
   let newvals :=
     concat (map (fun kd : nat * def =>
@@ -179,7 +238,20 @@ Definition net_commit (st : state) (fires : list (option val)) : state :=
   mkState (defs st) newvals [] [] (onces ++ Sodium.fired st) [] (loops st) (listeners st)
           0 (tdone st) [] [] (lazies st).
 
-(* a history: one set of sends per transaction *)
+(* the work the listeners of defer / split posted: one item per event (split: per list element) *)
+Definition net_deferred (st : state) (fires : list (option val)) : list ditem :=
+  concat (map (fun kd : nat * def =>
+                 match snd kd with
+                 | DDefer a => match fire_of fires a with Some v => [DEvent (fst kd) v] | None => [] end
+                 | DSplit a => match fire_of fires a with
+                               | Some (VList l) => map (DEvent (fst kd)) l
+                               | Some v => [DEvent (fst kd) v]
+                               | None => []
+                               end
+                 | _ => []
+                 end) (rev (defs st))).
+
+(* a history: one set of sends per transaction (deferred work is dropped; see net_outer_history) *)
 Fixpoint net_history (st : state) (txns : list (list (nat * val))) : option (list (list obs)) :=
   match txns with
   | [] => Some []
@@ -201,4 +273,88 @@ Fixpoint spec_history (st : state) (txns : list (list (nat * val))) : ev (list (
     elet r <- close_txn st inj [];
     elet os <- spec_history (r_state r) rest;
     EV (r_obs r :: os)
+  end.
+
+(* ------------------------------------------------------------------ the deferred queue *)
+(* operational counterpart of Spec.run_deferred: each deferred event is a transaction of the engine with
+   that single injection; a post closure samples its cells.  None = out of fuel (or the engine stuck,
+   which the refinement theorem excludes). *)
+Fixpoint net_run_deferred (fuel : nat) (choice : list nat) (st : state) (q : list ditem) (acc : list obs)
+  : option (state * list obs * list nat) :=
+  match fuel with
+  | O => None
+  | S f =>
+    match heads [] q with
+    | [] => Some (st, acc, [])
+    | hs =>
+      let k := match choice with c :: _ => Nat.modulo c (length hs) | [] => O end in
+      let d := nth k hs (DPost 0 []) in
+      let q' := remove_first (source_of d) q in
+      match d with
+      | DEvent h v =>
+        match net_txn st [(h, v)] with
+        | None => None
+        | Some (fires, _) =>
+          match net_run_deferred f (tl choice) (net_commit st fires) (q' ++ net_deferred st fires)
+                                 (acc ++ net_calls st fires) with
+          | None => None
+          | Some rest => Some (fst (fst rest), snd (fst rest), length hs :: snd rest)
+          end
+        end
+      | DPost kk cs =>
+        match net_run_deferred f (tl choice) st q' (acc ++ [BPost kk (map (curv st) cs)]) with
+        | None => None
+        | Some rest => Some (fst (fst rest), snd (fst rest), length hs :: snd rest)
+        end
+      end
+    end
+  end.
+
+(* operational counterpart of Spec.end_outer: the transaction of the sends, then the deferred queue.
+   `_with`: the sends and the user post closures given explicitly *)
+Definition net_end_outer_with (choice : list nat) (st : state) (inj : list (nat * val))
+           (ps : list (nat * list nat)) : option (state * list obs * list nat) :=
+  match net_txn st inj with
+  | None => None
+  | Some (fires, _) =>
+    net_run_deferred 200 choice (net_commit st fires)
+                     (net_deferred st fires ++ map (fun p => DPost (fst p) (snd p)) ps)
+                     (net_calls st fires)
+  end.
+Definition net_end_outer (choice : list nat) (st : state) : option (state * list obs * list nat) :=
+  net_end_outer_with choice st (sends st) (posts st).
+
+(* Spec.end_outer with the sends and posts given explicitly (end_outer_with_eq below) *)
+Definition spec_end_outer_with (choice : list nat) (st : state) (inj : list (nat * val))
+           (ps : list (nat * list nat)) : ev (state * list obs * list nat) :=
+  elet r <- close_txn st inj ps;
+  run_deferred 200 choice (r_state r) (r_deferred r) (r_obs r).
+Lemma end_outer_with_eq choice st : end_outer choice st = spec_end_outer_with choice st (sends st) (posts st).
+Proof. reflexivity. Qed.
+
+(* a history of outermost transactions: the sends, the user post closures and the scheduling choices of
+   each *)
+Definition otxn : Type := (list (nat * val) * list (nat * list nat) * list nat)%type.
+
+Fixpoint net_outer_history (st : state) (txns : list otxn) : option (list (list obs)) :=
+  match txns with
+  | [] => Some []
+  | (inj, ps, ch) :: rest =>
+    match net_end_outer_with ch st inj ps with
+    | None => None
+    | Some r =>
+      match net_outer_history (fst (fst r)) rest with
+      | None => None
+      | Some os => Some (snd (fst r) :: os)
+      end
+    end
+  end.
+
+Fixpoint spec_outer_history (st : state) (txns : list otxn) : ev (list (list obs)) :=
+  match txns with
+  | [] => EV []
+  | (inj, ps, ch) :: rest =>
+    elet r <- spec_end_outer_with ch st inj ps;
+    elet os <- spec_outer_history (fst (fst r)) rest;
+    EV (snd (fst r) :: os)
   end.
